@@ -6,7 +6,7 @@ use std::panic::{catch_unwind, AssertUnwindSafe};
 
 use serde::{Deserialize, Serialize};
 use serde_json::json;
-use shred::{Fetch, FetchMut, Read, ReadExpect, Resource, World, Write};
+use shred::{Fetch, FetchMut, Read, Resource, World, Write};
 
 use crate::build::panic_msg;
 use crate::driver::{Fail, Prop, Stats};
